@@ -220,6 +220,42 @@ bool Generator::GeneratorImpl::isPiecewiseStatement(const AnalyserEquationAstPtr
            && mProfile->hasConditionalOperator();
 }
 
+bool Generator::GeneratorImpl::isLogarithmWithBase(const AnalyserEquationAstPtr &ast) const
+{
+    // Note: a logarithm with a base (other than 10) is generated as the
+    //       quotient of two natural logarithms.
+
+    return (ast->type() == AnalyserEquationAst::Type::LOG)
+           && (ast->rightChild() != nullptr);
+}
+
+bool Generator::GeneratorImpl::isOperatorExpression(const AnalyserEquationAstPtr &ast) const
+{
+    // Determine whether the code generated for the given AST consists of
+    // operators and operands (as opposed to an identifier, a non-negative
+    // number, a function call or something in parentheses).
+    // Note: a unary plus generates the code of its operand, in parentheses if
+    //       it is itself an operator expression.
+
+    if ((ast->type() == AnalyserEquationAst::Type::PLUS)
+        && (ast->rightChild() == nullptr)) {
+        return false;
+    }
+
+    return isNegativeNumber(ast)
+           || isRelationalOperator(ast)
+           || isLogicalOperator(ast)
+           || ((ast->type() == AnalyserEquationAst::Type::NOT) && mProfile->hasNotOperator())
+           || isPlusOperator(ast)
+           || isMinusOperator(ast)
+           || isTimesOperator(ast)
+           || isDivideOperator(ast)
+           || isPowerOperator(ast)
+           || isRootOperator(ast)
+           || isLogarithmWithBase(ast)
+           || isPiecewiseStatement(ast);
+}
+
 void Generator::GeneratorImpl::updateVariableInfoSizes(size_t &componentSize,
                                                        size_t &nameSize,
                                                        size_t &unitsSize,
@@ -1358,7 +1394,15 @@ std::string Generator::GeneratorImpl::generateCode(const AnalyserEquationAstPtr 
         break;
     case AnalyserEquationAst::Type::NOT:
         if (mProfile->hasNotOperator()) {
-            code = mProfile->notString() + generateCode(ast->leftChild());
+            auto astLeftChild = ast->leftChild();
+
+            code = generateCode(astLeftChild);
+
+            if (isOperatorExpression(astLeftChild)) {
+                code = "(" + code + ")";
+            }
+
+            code = mProfile->notString() + code;
         } else {
             code = generateOneParameterFunctionCode(mProfile->notString(), ast);
         }
@@ -1368,7 +1412,13 @@ std::string Generator::GeneratorImpl::generateCode(const AnalyserEquationAstPtr 
         if (ast->rightChild() != nullptr) {
             code = generateOperatorCode(mProfile->plusString(), ast);
         } else {
-            code = generateCode(ast->leftChild());
+            auto astLeftChild = ast->leftChild();
+
+            code = generateCode(astLeftChild);
+
+            if (isOperatorExpression(astLeftChild)) {
+                code = "(" + code + ")";
+            }
         }
 
         break;
